@@ -20,7 +20,5 @@ E
   echo "$HEAD $line"
 }
 export -f one
-ls -d seeded/$PAT/ | sed 's:/$::' | xargs -P $J -I{} bash -c "one {} $HEAD" | tee seeded/REVALIDATION.log.tmp
-sort seeded/REVALIDATION.log.tmp > seeded/REVALIDATION.log; rm -f seeded/REVALIDATION.log.tmp
-grep -c "check_rc=1 VIOLATION" seeded/REVALIDATION.log
-grep -v "check_rc=1 VIOLATION" seeded/REVALIDATION.log
+ls -d seeded/$PAT/ | sed 's:/$::' | xargs -P $J -I{} bash -c "one {} $HEAD"
+python3 tools/seed_log.py
